@@ -213,29 +213,76 @@ class _Inliner:
 
     def __init__(self, cls: ast.ClassDef, keep: set[str]):
         self.methods = {k: v for k, v in _plain_methods(cls).items() if isinstance(v, ast.FunctionDef) and k not in keep}
+        # static methods: called as `self.f(…)` or `<Class>.f(…)`, no `self` parameter
+        self.static = {n.name: n for n in cls.body if isinstance(n, ast.FunctionDef) and n.name not in keep
+                       and [_src(d).split(".")[-1] for d in n.decorator_list] == ["staticmethod"]}
+        self.cls_name = cls.name
         self.n = 0
 
     def inlinable(self, call: ast.expr | None) -> ast.FunctionDef | None:
         if not (isinstance(call, ast.Call) and isinstance(call.func, ast.Attribute) and isinstance(call.func.value, ast.Name)
-                and call.func.value.id == "self" and call.func.attr in self.methods and not call.keywords
+                and call.func.value.id in ("self", self.cls_name) and not call.keywords
                 and not any(isinstance(a, ast.Starred) for a in call.args)):
             return None
-        fn = self.methods[call.func.attr]
+        name = call.func.attr
+        if name in self.static:
+            fn, nself = self.static[name], 0
+        elif name in self.methods and call.func.value.id == "self":
+            fn, nself = self.methods[name], 1
+            if [d for d in fn.decorator_list if _src(d).split(".")[-1] != "override"]:
+                return None
+        else:
+            return None
         a = fn.args
-        if a.vararg or a.kwarg or a.kwonlyargs or a.posonlyargs or len(a.args) - 1 != len(call.args) or fn.decorator_list:
+        if a.vararg or a.kwarg or a.kwonlyargs or a.posonlyargs or len(a.args) - nself != len(call.args):
             return None
         body = [s for s in fn.body if not (isinstance(s, ast.Expr) and isinstance(s.value, ast.Constant))]
-        inner = body[:-1] if body and isinstance(body[-1], ast.Return) else body
-        if _contains(inner, (ast.Return, ast.Yield, ast.YieldFrom, ast.FunctionDef, ast.AsyncFunctionDef, ast.ClassDef,
-                             ast.Global, ast.Nonlocal, ast.Await)):
+        if _contains(body, (ast.Yield, ast.YieldFrom, ast.FunctionDef, ast.AsyncFunctionDef, ast.ClassDef, ast.Global,
+                            ast.Nonlocal, ast.Await)):
             return None
+        inner = body[:-1] if body and isinstance(body[-1], ast.Return) else body
+        if _contains(inner, ast.Return):
+            # several exits: fine unless one of them is inside a loop / with block (no single-exit form without `break`)
+            for x in body:
+                for y in ast.walk(x):
+                    if isinstance(y, (ast.For, ast.While, ast.With, ast.Match)) and _contains(y, ast.Return):
+                        return None
         return fn
+
+    def single_exit(self, stmts: list[ast.stmt], rvar: str, dvar: str) -> tuple[list[ast.stmt], bool]:
+        """`return e` -> `rvar = e; dvar = True`; what follows a statement that may have returned runs `if not dvar`."""
+        out: list[ast.stmt] = []
+        for i, s in enumerate(stmts):
+            may = False
+            if isinstance(s, ast.Return):
+                out.append(ast.Assign(targets=[ast.Name(id=rvar, ctx=ast.Store())], value=s.value or ast.Constant(value=None)))
+                out.append(ast.Assign(targets=[ast.Name(id=dvar, ctx=ast.Store())], value=ast.Constant(value=True)))
+                return out, True
+            if isinstance(s, ast.If):
+                s.body, m1 = self.single_exit(s.body, rvar, dvar)
+                s.orelse, m2 = self.single_exit(s.orelse, rvar, dvar)
+                may = m1 or m2
+            elif isinstance(s, ast.Try):
+                s.body, m1 = self.single_exit(s.body, rvar, dvar)
+                s.orelse, m2 = self.single_exit(s.orelse, rvar, dvar)
+                s.finalbody, m3 = self.single_exit(s.finalbody, rvar, dvar)
+                may = m1 or m2 or m3
+                for h in s.handlers:
+                    h.body, m = self.single_exit(h.body, rvar, dvar)
+                    may = may or m
+            out.append(s)
+            if may:
+                rest, _ = self.single_exit(list(stmts[i + 1:]), rvar, dvar)
+                if rest:
+                    out.append(ast.If(test=ast.UnaryOp(op=ast.Not(), operand=ast.Name(id=dvar, ctx=ast.Load())), body=rest, orelse=[]))
+                return out, True
+        return out, False
 
     def expand(self, fn: ast.FunctionDef, call: ast.Call, target: ast.expr | None, ann: ast.expr | None,
                is_return: bool) -> list[ast.stmt]:
         self.n += 1
         body = copy.deepcopy([s for s in fn.body if not (isinstance(s, ast.Expr) and isinstance(s.value, ast.Constant))])
-        params = [x.arg for x in fn.args.args[1:]]
+        params = [x.arg for x in fn.args.args[(0 if fn.name in self.static and self.static[fn.name] is fn else 1):]]
         bound = set(params)
         for s in body:
             for x in ast.walk(s):
@@ -245,7 +292,14 @@ class _Inliner:
                     bound.add(x.arg)
         ren = {b: f"_{fn.name.strip('_')}{self.n}_{b}" for b in bound if b != "self"}
         ret = body[-1] if body and isinstance(body[-1], ast.Return) else None
-        if ret is not None:
+        if _contains(body[:-1] if ret is not None else body, ast.Return):  # several exits -> single-exit form
+            rvar, dvar = f"_{fn.name.strip('_')}{self.n}_result", f"_{fn.name.strip('_')}{self.n}_returned"
+            body, _ = self.single_exit(body, rvar, dvar)
+            body.insert(0, ast.Assign(targets=[ast.Name(id=dvar, ctx=ast.Store())], value=ast.Constant(value=False)))
+            ret = ast.Return(value=ast.Name(id=rvar, ctx=ast.Load()))
+            bound |= {rvar, dvar}
+            ren[rvar], ren[dvar] = rvar, dvar
+        elif ret is not None:
             body = body[:-1]
         arg_names = {x.id for a in call.args for x in ast.walk(a) if isinstance(x, ast.Name)}
         direct = (ret is not None and isinstance(ret.value, ast.Name) and ret.value.id in bound and ret.value.id not in params
@@ -295,6 +349,17 @@ class _Inliner:
             if fn is not None:
                 out.extend(self.stmts(self.expand(fn, call, target, ann, is_ret), depth + 1))
                 continue
+            if isinstance(s, ast.If) and depth < 4:  # `if [not] self._h(…):`
+                t, neg = s.test, False
+                while isinstance(t, ast.UnaryOp) and isinstance(t.op, ast.Not):
+                    t, neg = t.operand, not neg
+                fn = self.inlinable(t)
+                if fn is not None:
+                    tmp = ast.Name(id=f"_{fn.name.strip('_')}{self.n + 1}_value", ctx=ast.Store())
+                    out.extend(self.stmts(self.expand(fn, t, tmp, None, False), depth + 1))
+                    test: ast.expr = ast.Name(id=tmp.id, ctx=ast.Load())
+                    s.test = ast.UnaryOp(op=ast.Not(), operand=test) if neg else test
+                    ast.fix_missing_locations(s)
             for field in ("body", "orelse", "finalbody"):
                 sub = getattr(s, field, None)
                 if isinstance(sub, list) and sub and isinstance(sub[0], ast.stmt):
@@ -316,6 +381,42 @@ def _inlined(cls: ast.ClassDef, name: str, keep: set[str] = frozenset()) -> ast.
 def _desugar(fn: ast.AST) -> None:
     """Top-level `x = [e for v in it if c]` / `x = sorted(y, key=…, reverse=…)` become the loop / the in-place sort they
     mean (`x = []; for v in it: if c: x.append(e)` resp. `x = list(y)`-free `x.sort(…)` when y is x or a fresh list)."""
+    # a local `def f(x): return e` (or `f = lambda x: e`) that is defined once: calls `f(a)` become `e[x := a]`, other
+    # uses (`key=f`) become the lambda
+    local: dict[str, ast.Lambda] = {}
+    for s in fn.body:
+        if isinstance(s, ast.FunctionDef) and not s.decorator_list and not s.args.defaults and not s.args.vararg \
+                and not s.args.kwarg and not s.args.kwonlyargs:
+            b = [x for x in s.body if not (isinstance(x, ast.Expr) and isinstance(x.value, ast.Constant))]
+            if len(b) == 1 and isinstance(b[0], ast.Return) and b[0].value is not None:
+                local[s.name] = ast.Lambda(args=s.args, body=b[0].value)
+        elif isinstance(s, ast.Assign) and len(s.targets) == 1 and isinstance(s.targets[0], ast.Name) \
+                and isinstance(s.value, ast.Lambda) and not s.value.args.defaults:
+            local[s.targets[0].id] = s.value
+    stores = [x.id for x in ast.walk(fn) if isinstance(x, ast.Name) and isinstance(x.ctx, ast.Store)] + \
+             [x.name for x in ast.walk(fn) if isinstance(x, (ast.FunctionDef, ast.AsyncFunctionDef)) and x is not fn]
+    local = {k: v for k, v in local.items() if stores.count(k) == 1 and not _mutates(v.body)
+             and not _contains(v.body, (ast.Await, ast.NamedExpr))}
+    if local:
+        class _Calls(ast.NodeTransformer):
+            def visit_Call(self, node: ast.Call) -> ast.AST:  # noqa: N802
+                if isinstance(node.func, ast.Name) and node.func.id in local and not node.keywords \
+                        and len(node.args) == len(local[node.func.id].args.args) \
+                        and all(isinstance(x, (ast.Name, ast.Attribute, ast.Load)) for a in node.args for x in ast.walk(a)):
+                    lam = local[node.func.id]
+                    return _Subst({p.arg: a for p, a in zip(lam.args.args, node.args)}).visit(copy.deepcopy(lam.body))
+                self.generic_visit(node)
+                return node
+
+            def visit_Name(self, node: ast.Name) -> ast.AST:  # noqa: N802
+                if isinstance(node.ctx, ast.Load) and node.id in local:
+                    return copy.deepcopy(local[node.id])
+                return node
+
+        kept = [x for x in fn.body if not (isinstance(x, ast.FunctionDef) and x.name in local)
+                and not (isinstance(x, ast.Assign) and isinstance(x.targets[0], ast.Name) and x.targets[0].id in local
+                         and isinstance(x.value, ast.Lambda))]
+        fn.body = [_Calls().visit(x) for x in kept]
     out: list[ast.stmt] = []
     for s in fn.body:
         tg = None
